@@ -798,7 +798,7 @@ class Env(gpp.UGenParameter, gpp.NodeParameter):
                     sqrt_sl = bi.sqrt(start_level)
                     sqrt_tl = bi.sqrt(target_level)
                     sqrt_level = pos * (sqrt_tl - sqrt_sl) + sqrt_sl
-                    return sqrt_level * sqrt_level
+                    return sqrt_level * abs(sqrt_level)
                 elif shape == shape_names['cubed']:
                     cbrt_sl = bi.pow(start_level, 0.3333333)
                     cbrt_tl = bi.pow(target_level, 0.3333333)
